@@ -1,23 +1,23 @@
 SPECIFICATION Spec
 CONSTANTS
   NW = 1
-  NBatch = 2
-  RPB = 2
-  NSigs = 2
-  NHours = 2
+  NBatch = 4
+  RPB = 1
+  NSigs = 1
+  NHours = 1
   NKeys = 1
-  MaxBuf = 2
+  MaxBuf = 1
   QCap = 2
   NWorkers = 1
   MaxIters = 2
-  WalOn = FALSE
+  WalOn = TRUE
   FailKinds = {"error"}
   MaxDown = 0
   MaxRot = 0
   MaxTick = 0
   MaxAged = 0
-  Ops = {"flushall", "close"}
-  CloseAfterWrites = TRUE
+  Ops = {"shutdown"}
+  CloseAfterWrites = FALSE
   CloseDrains = TRUE
   Coarse = TRUE
   Emit = TRUE
